@@ -332,6 +332,8 @@ buf_step!(buf_dec_step_b2_a2_n5, 48, BufDecryptor, decrypt, false, U2, 2, 2, 5);
 buf_step_fixed!(buf_enc_long_b2_p1_n12, 48, BufEncryptor, encrypt, true, U2, 2, 1, 12);
 buf_step_fixed!(buf_dec_long_b2_p1_n12, 48, BufDecryptor, decrypt, false, U2, 2, 1, 12);
 buf_step_fixed!(buf_dec_long_b1_p0_n9, 48, BufDecryptor, decrypt, false, U1, 1, 0, 9);
+buf_step_fixed!(buf_dec_long_b1_p1_n19, 64, BufDecryptor, decrypt, false, U1, 1, 1, 19);
+buf_step_fixed!(buf_enc_long_b1_p1_n19, 64, BufEncryptor, encrypt, true, U1, 1, 1, 19);
 buf_fresh!(buf_enc_fresh_b2_l5, 48, BufEncryptor, encrypt, true, U2, 2, 5);
 buf_fresh!(buf_dec_fresh_b2_l5, 48, BufDecryptor, decrypt, false, U2, 2, 5);
 prefix_case!(prefix_cfb_enc_b2_w2_l7, 48, cfb_mode, Encryptor, enc, U2, 2, U2, 7);
